@@ -1,24 +1,26 @@
 #!/bin/sh
-# tools/tryseeds.sh <Cxx> — run tools/tryseed.sh for /tmp/mut/<Cxx>-out/m1..m3, copy to seeded/, record the outcome
-id="$1"
+# tools/tryseeds.sh <Cxx> [dir] [tag] — run tools/tryseed.sh for <dir>/<Cxx>-out/m1..m3 (default /tmp/mut), copy to seeded/<Cxx>-<tag>m<i>, record the outcome
+id="$1"; base="${2:-/tmp/mut}"; tag="${3:-}"
 for m in m1 m2 m3; do
-  d=/tmp/mut/$id-out/$m
+  d=$base/$id-out/$m
   [ -f $d/patch.diff ] || continue
-  mkdir -p /verif/seeded/$id-$m
-  cp $d/patch.diff $d/meta.json /verif/seeded/$id-$m/ 2>/dev/null
-  cp $d/*.go /verif/seeded/$id-$m/ 2>/dev/null
+  mkdir -p /verif/seeded/$id-$tag$m
+  cp $d/patch.diff $d/meta.json /verif/seeded/$id-$tag$m/ 2>/dev/null
+  cp $d/*.go /verif/seeded/$id-$tag$m/ 2>/dev/null
   out=$(/verif/tools/tryseed.sh $id $d/patch.diff 2>&1 | tail -12)
   rc=$(echo "$out" | grep -o "exit=[0-9]*" | tail -1)
   echo "== $id $m $rc"; echo "$out" | grep -v "^exit=" | head -6
-  python3 - "$id" "$m" "$rc" "$out" <<'PY'
+  SEEDTAG="$tag" python3 - "$id" "$m" "$rc" "$out" <<'PY'
 import json,sys
 id,m,rc,out=sys.argv[1:5]
-p=f'/verif/seeded/{id}-{m}/meta.json'
+import os
+tag=os.environ.get('SEEDTAG','')
+p=f'/verif/seeded/{id}-{tag}{m}/meta.json'
 try: meta=json.load(open(p))
 except Exception: meta={"property":id}
 cl=[l.replace('violated clause ','').split(' (first')[0] for l in out.splitlines() if l.startswith('violated clause')]
 oc={'exit=1':'detected','exit=0':'MISSED','exit=2':'INCONCLUSIVE'}.get(rc,rc)
-meta['verif_result']={'check':id,'outcome':oc,'clauses':'; '.join(cl[:6]),'command':f'tools/tryseed.sh {id} seeded/{id}-{m}/patch.diff'}
+meta['verif_result']={'check':id,'outcome':oc,'clauses':'; '.join(cl[:6]),'command':f'tools/tryseed.sh {id} /verif/seeded/{id}-{tag}{m}/patch.diff'}
 json.dump(meta,open(p,'w'),indent=1)
 PY
 done
